@@ -24,15 +24,19 @@ add("C06", "E1", "model_checking",
     "Every interleaving of one collector with a committing / rolling-back / conflicting transaction, at shared-storage-"
     "operation granularity, local and CAS-S3, with the transaction's files on both sides of the grace period; "
     "2 actors unbounded, 3 actors under a stated preemption bound. Oracle: every file of every snapshot of the final "
-    "metadata exists and parses (independent reader).",
-    "Same engine assumptions as C01; grace 1 h vs. millisecond virtual runs (the property's proviso).",
+    "metadata exists and parses (independent reader). Deviations: the writer stalls 3 h (never during an open collection "
+    "run), a collection run takes 10 more minutes, another writer's whole commit / another process's whole collection lands "
+    "as one atomic environment step, a sibling transaction of the same handle finishes first.",
+    "Same engine assumptions as C01; grace 1 h; a run longer than the grace period is outside the statement and never judged.",
     "DESIGN.md 3 C06")
 add("C08", "E1", "model_checking",
     "stateless interleaving exploration at S3-request granularity with lease-lapse deviations (clock jumps, process pauses)",
     "Every interleaving of 2 committers (plus their heartbeat threads) at S3-request granularity on the real code, with "
     "the real CAS lock and with a lock granting everyone; unbounded without time deviations, and under stated preemption "
     "bounds with clock jumps past the lease / process pauses inserted at every point. Oracles: the CAS replaced the pointer "
-    "naming the validated version, serializability of acknowledged commits, no outcome other than success or a retryable conflict.",
+    "naming the validated version, serializability of acknowledged commits, no outcome other than success or a retryable conflict, "
+    "no pointer write by a committer whose ownership read returned somebody else's lock object, no rewrite of an existing "
+    "metadata object. Further deviations: paused and cut off from the lock object, one 503 on the pointer write.",
     "In-memory S3 with AWS conditional-write semantics; the validated version is observed by a harness-side wrapper of "
     "MetadataManager._read_metadata_file inside commit; a delayed in-flight PUT is modelled as descheduling at the request.",
     "DESIGN.md 3 C08")
@@ -149,9 +153,11 @@ add("C07", "E3", "fault_enumeration",
     "DESIGN.md 3 C07")
 add("C04", "E3", "fault_enumeration",
     "exhaustive fault enumeration: every storage-level call of a commit x every fault kind (+ all ordered fault pairs in the commit region)",
-    "The storage-level calls of each commit (4 operations x 3 call styles x local / CAS-S3 / non-CAS S3) are numbered in a "
+    "The storage-level calls of each commit (5 operations incl. re-registering a referenced file, x 3 call styles x local / "
+    "CAS-S3 / non-CAS S3) and of create_table on an empty location are numbered in a "
     "fault-free run; for every call and every applicable fault kind (OSError or ClientError before the effect, once or on "
-    "every attempt; permanent error; error after the effect of a PUT/DELETE; KeyboardInterrupt/SystemExit before and after "
+    "every attempt; permanent error; transport-level error; error after the effect of a PUT/DELETE, incl. a 412 after an "
+    "applied conditional pointer write; KeyboardInterrupt/SystemExit before and after "
     "the call) the operation is re-run from the same template with the fault planted there, and the outcome/state table of "
     "the statement is checked, followed by a scan and an append through a fresh handle.",
     "Asynchronous interrupts are placed at storage-call boundaries; close() is modelled as releasing the descriptor even when it reports an error.",
